@@ -10,6 +10,7 @@ use discret::verif_hooks::database::node::{Node, NodeDeletionEntry, NodeIdentifi
 use discret::verif_hooks::date_utils::verif_clock;
 use discret::verif_hooks::event_service::{Event, EventService};
 use discret::verif_hooks::security::{base64_encode, random32, Ed25519SigningKey, SigningKey};
+use discret::verif_hooks::verif_faults as vf;
 use discret::{Parameters, ParametersAdd};
 use serde_json::json;
 use std::collections::{HashMap, HashSet};
@@ -17,6 +18,7 @@ use std::path::PathBuf;
 use vharness::common::*;
 
 const BASE: i64 = 1_700_006_400_000; // a midnight (UTC)
+static MISSING: std::sync::atomic::AtomicU64 = std::sync::atomic::AtomicU64::new(0);
 type Uid = [u8; 16];
 
 /// DeletionQuery::updated_nodes holds Node (baseline) or NodeDelete (after the C01 reference-deletion fix)
@@ -62,6 +64,7 @@ struct Inst {
     peer: Ed25519SigningKey,
     names: Names,
     path: PathBuf,
+    missing_events: u64,
 }
 
 impl Inst {
@@ -75,7 +78,7 @@ impl Inst {
         let es = EventService::new();
         let ev = es.subcribe().await;
         let (app, me, _) = GraphDatabaseService::start("c09", model, &random32(), &random32(), path.clone(), &Configuration::default(), es).await.unwrap();
-        let mut inst = Inst { app, ev, me, peer: Ed25519SigningKey::create_from(&[5u8; 32]), names: Names { person: String::new(), pet: String::new(), label: String::new() }, path };
+        let mut inst = Inst { app, ev, me, peer: Ed25519SigningKey::create_from(&[5u8; 32]), names: Names { person: String::new(), pet: String::new(), label: String::new() }, path, missing_events: 0 };
         inst.wait_events(1).await; // the recompute requested at start-up
         // learn the short names from real rows
         let r = inst.app.mutate_raw(r#"mutate { a: ns.Person{ name:"x" parents:[{name:"y"}] } b: ns.Pet{ name:"z" } }"#, None).await.unwrap();
@@ -86,11 +89,13 @@ impl Inst {
         assert!(inst.names.person < inst.names.pet);
         inst
     }
-    /// one DataChanged event per processed ComputeDailyLog: the recompute barrier
+    /// one DataChanged event per processed ComputeDailyLog: the recompute barrier. Every wait is
+    /// bounded: an event that does not come is an observation (the tables read back afterwards show
+    /// what was not recomputed), never a harness failure
     async fn wait_events(&mut self, n: usize) -> Vec<Vec<(String, String, i64)>> {
         let mut out = vec![];
         while out.len() < n {
-            match tokio::time::timeout(std::time::Duration::from_secs(20), self.ev.recv()).await {
+            match tokio::time::timeout(std::time::Duration::from_secs(5), self.ev.recv()).await {
                 Ok(Ok(Event::DataChanged(d))) => {
                     let mut v = vec![];
                     for (r, m) in &d.rooms { for (e, ds) in m { for d in ds { v.push((r.clone(), e.clone(), *d)); } } }
@@ -98,8 +103,9 @@ impl Inst {
                     out.push(v);
                 }
                 Ok(Ok(_)) => {}
+                Ok(Err(tokio::sync::broadcast::error::RecvError::Lagged(_))) => {}
                 Ok(Err(e)) => panic!("event channel: {:?}", e),
-                Err(_) => panic!("timeout waiting for the recompute event"),
+                Err(_) => { self.missing_events += 1; MISSING.fetch_add(1, std::sync::atomic::Ordering::SeqCst); break; }
             }
         }
         out
@@ -297,7 +303,34 @@ fn tick(scn: &mut Scn, t: i64) {
     if t != scn.now { scn.now = t; verif_clock::set(t); scn.items.push(Item::Batch(vec![Msg::Op(Op::Tick(t))])); }
 }
 
-async fn l_create(inst: &mut Inst, scn: &mut Scn, ent: u64, room: Option<usize>, quiet: bool) {
+/// arms the H4 fault hook so that the COMMIT of the next writer batch (one message with `groups`
+/// statement groups) fails; returns after the caller's write: true if the failure was injected
+fn arm_commit_failure(groups: u64) { vf::arm(vf::MODE_FAIL, 2 * groups + 3, 0, None); }
+fn disarm_fired() -> bool { let f = vf::fired() == 1; vf::disarm(); f }
+
+async fn l_create(inst: &mut Inst, scn: &mut Scn, ent: u64, room: Option<usize>, quiet: bool) { l_create_f(inst, scn, ent, room, quiet, false).await }
+/// fail_first: the same request is first sent while the COMMIT of its batch is made to fail (the
+/// transaction is rolled back, the caller gets an error), then sent again
+async fn l_create_f(inst: &mut Inst, scn: &mut Scn, ent: u64, room: Option<usize>, quiet: bool, fail_first: bool) {
+    if fail_first {
+        let mut p = Parameters::default();
+        let q = match room {
+            Some(r) => { p.add("room_id", base64_encode(&scn.rooms[r])).unwrap(); format!("mutate {{ {}{{ room_id:$room_id name:\"c\" }} }}", ent_long(ent)) }
+            None => format!("mutate {{ {}{{ name:\"c\" }} }}", ent_long(ent)),
+        };
+        arm_commit_failure(1);
+        let r = inst.mutate_quiet(&q, p).await;
+        let fired = disarm_fired();
+        if let Ok(m) = r { // the failure was not injected: the write is there, record it
+            let n = m.mutate_entities[0].node_to_mutate.node.as_ref().unwrap();
+            let id = scn.new_id(n.id);
+            let sig = scn.sig(&n._signature);
+            scn.nodes.push(Shadow { idx: id, uid: n.id, ent, room, mdate: n.mdate, alive: true });
+            scn.push_batch(vec![Op::LCreate { id, room, ent, sig }]);
+            after_write(inst, scn).await;
+            scn.bump("fault_not_injected");
+        } else if fired { scn.bump("fault_commit_failed"); }
+    }
     let mut p = Parameters::default();
     let q = match room {
         Some(r) => { p.add("room_id", base64_encode(&scn.rooms[r])).unwrap(); format!("mutate {{ {}{{ room_id:$room_id name:\"c\" }} }}", ent_long(ent)) }
@@ -361,6 +394,54 @@ async fn l_addref(inst: &mut Inst, scn: &mut Scn, si: usize, di: usize) {
     auto_compute(inst, scn, false).await;
 }
 
+/// mutate { ns.Person{ room_id? name parents:[{ room_id? name }] } }: an owner row and a nested row
+/// created in one request (the nested row takes the owner's room only when it names none)
+async fn l_nested_create(inst: &mut Inst, scn: &mut Scn, oroom: Option<usize>, croom: Option<usize>, quiet: bool) {
+    let mut p = Parameters::default();
+    let o = match oroom { Some(r) => { p.add("ro", base64_encode(&scn.rooms[r])).unwrap(); "room_id:$ro " } None => "" };
+    let c = match croom { Some(r) => { p.add("rc", base64_encode(&scn.rooms[r])).unwrap(); "room_id:$rc " } None => "" };
+    let q = format!("mutate {{ ns.Person{{ {}name:\"o\" parents:[{{ {}name:\"n\" }}] }} }}", o, c);
+    let r = if quiet { inst.mutate_quiet(&q, p).await } else { inst.app.mutate_raw(&q, Some(p)).await }.unwrap();
+    let ie = &r.mutate_entities[0];
+    let on = ie.node_to_mutate.node.as_ref().unwrap();
+    let cn = ie.sub_nodes.get("parents").unwrap()[0].node_to_mutate.node.as_ref().unwrap();
+    let (oid, cid) = (scn.new_id(on.id), scn.new_id(cn.id));
+    let (osig, csig) = (scn.sig(&on._signature), scn.sig(&cn._signature));
+    let oroom_eff = on.room_id.and_then(|u| scn.room_ix(&u));
+    let croom_eff = cn.room_id.and_then(|u| scn.room_ix(&u));
+    scn.nodes.push(Shadow { idx: oid, uid: on.id, ent: 1, room: oroom_eff, mdate: on.mdate, alive: true });
+    scn.nodes.push(Shadow { idx: cid, uid: cn.id, ent: 1, room: croom_eff, mdate: cn.mdate, alive: true });
+    scn.edges.push((oid, cid, ie.edge_insertions[0].cdate));
+    scn.push_batch(vec![Op::LCreate { id: oid, room: oroom_eff, ent: 1, sig: osig }, Op::LCreate { id: cid, room: croom_eff, ent: 1, sig: csig },
+                        Op::LAddRef { src: oid, ent: 1, dest: cid, sig: osig }]);
+    scn.bump("l_nested_create");
+    auto_compute(inst, scn, quiet).await;
+}
+
+/// mutate { ns.Person{ id:$p parents:[{ id:$c name }] } }: a row updated THROUGH another one (which
+/// is itself only rewritten when the reference is new)
+async fn l_via(inst: &mut Inst, scn: &mut Scn, pi: usize, ci: usize, quiet: bool) {
+    let (ps, cs) = (scn.nodes[pi].clone(), scn.nodes[ci].clone());
+    let mut p = Parameters::default();
+    p.add("p", base64_encode(&ps.uid)).unwrap();
+    p.add("c", base64_encode(&cs.uid)).unwrap();
+    let q = format!("mutate {{ ns.Person{{ id:$p parents:[{{ id:$c name:\"v{}\" }}] }} }}", scn.now % 1000);
+    let r = if quiet { inst.mutate_quiet(&q, p).await } else { inst.app.mutate_raw(&q, Some(p)).await };
+    match &r {
+        Ok(m) => {
+            let ie = &m.mutate_entities[0];
+            let psig = match &ie.node_to_mutate.node { Some(n) => { let sg = scn.sig(&n._signature); scn.nodes[pi].mdate = n.mdate; scn.edges.push((ps.idx, cs.idx, ie.edge_insertions[0].cdate)); sg } None => 0 };
+            let cn = ie.sub_nodes.get("parents").unwrap()[0].node_to_mutate.node.as_ref().unwrap();
+            let csig = scn.sig(&cn._signature);
+            scn.nodes[ci].mdate = cn.mdate;
+            scn.push_batch(vec![Op::LAddRef { src: ps.idx, ent: 1, dest: cs.idx, sig: psig }, Op::LUpdate { id: cs.idx, ent: 1, room: None, sig: csig }]);
+            scn.bump(if psig == 0 { "l_via_unchanged_parent" } else { "l_via_new_reference" });
+        }
+        Err(_) => { scn.bump("l_via_err"); }
+    }
+    auto_compute(inst, scn, quiet).await;
+}
+
 async fn l_delnode(inst: &mut Inst, scn: &mut Scn, ni: usize) {
     let sh = scn.nodes[ni].clone();
     let mut p = Parameters::default();
@@ -387,7 +468,8 @@ async fn l_delref(inst: &mut Inst, scn: &mut Scn, si: usize, di: usize) {
 }
 
 /// versions: (node index or None for a new id, entity, mdate)
-async fn s_nodes(inst: &mut Inst, scn: &mut Scn, room: usize, versions: Vec<(Option<usize>, u64, i64)>) {
+async fn s_nodes(inst: &mut Inst, scn: &mut Scn, room: usize, versions: Vec<(Option<usize>, u64, i64)>) { s_nodes_f(inst, scn, room, versions, false).await }
+async fn s_nodes_f(inst: &mut Inst, scn: &mut Scn, room: usize, versions: Vec<(Option<usize>, u64, i64)>, fail_first: bool) {
     let mut set = HashSet::new();
     let mut built: HashMap<Uid, Node> = HashMap::new();
     let mut sym = vec![];
@@ -408,6 +490,20 @@ async fn s_nodes(inst: &mut Inst, scn: &mut Scn, room: usize, versions: Vec<(Opt
         set.insert(NodeIdentifier { id: uid, mdate, signature: node._signature.clone() });
         sym.push((idx, ent, mdate, sig));
         built.insert(uid, node);
+    }
+    if fail_first {
+        let set2: HashSet<NodeIdentifier> = set.iter().map(|n| NodeIdentifier { id: n.id, mdate: n.mdate, signature: n.signature.clone() }).collect();
+        let mut ntis = inst.app.filter_existing_node(set2).await.unwrap();
+        for nti in &mut ntis { let mut n = built.get(&nti.id).unwrap().clone(); n._local_id = nti.old_local_id; nti.node = Some(n); }
+        if !ntis.is_empty() {
+            arm_commit_failure(ntis.len() as u64);
+            let r = inst.app.add_nodes(scn.rooms[room], ntis).await;
+            let fired = disarm_fired();
+            if r.is_err() && fired { scn.bump("fault_commit_failed"); } else { scn.bump("fault_not_injected"); }
+            // (if the failure was not injected the rows are stored: the second attempt below is then
+            //  filtered out as "not newer", which the model reproduces: same rows offered twice)
+            if r.is_ok() { scn.push_batch(vec![Op::SNodes { room, ns: sym.clone() }]); after_write(inst, scn).await; }
+        }
     }
     let mut ntis = inst.app.filter_existing_node(set).await.unwrap();
     let mut accepted = 0;
@@ -548,7 +644,7 @@ fn emit(out: &mut Out, scn: &Scn, kind: &str, profile: &str) {
     }
     let items = items_coq(&scn.items, &f);
     let nops = scn.items.iter().map(|i| match i { Item::Batch(b) => b.len(), _ => 0 }).sum::<usize>();
-    let meta = json!({"profile": profile, "msgs": nops, "checks": scn.dumps.len(), "log_rows_read": rows_total, "unexplained_hashes": unexplained, "ops": scn.stats, "case_no": scn.case_no});
+    let meta = json!({"missing_events": MISSING.load(std::sync::atomic::Ordering::SeqCst), "profile": profile, "msgs": nops, "checks": scn.dumps.len(), "log_rows_read": rows_total, "unexplained_hashes": unexplained, "ops": scn.stats, "case_no": scn.case_no});
     out.push(Case { kind: format!("{}-daily", kind), coq: format!("CDaily {} {}", gz(scn.t0), items), obs: obs.clone(), meta: meta.clone() });
     out.push(Case { kind: format!("{}-canon", kind), coq: format!("CCanon {} {}", gz(scn.t0), items), obs, meta });
 }
@@ -567,7 +663,7 @@ async fn new_scn(inst: &mut Inst, case_no: u64, nrooms: usize, start_day: i64) -
 
 // ---------------------------------------------------------------- directed cases
 async fn directed(inst: &mut Inst, out: &mut Out, which: u64) {
-    let mut scn = new_scn(inst, 1000 + which, if which == 4 { 2 } else { 1 }, 0).await;
+    let mut scn = new_scn(inst, 1000 + which, if which == 4 || which == 9 || which == 10 { 2 } else { 1 }, 0).await;
     let d = |k: i64, ms: i64| BASE + k * DAY + ms;
     match which {
         0 => { // repaired (4510e5f), must pass: synchronised update, same room, another day
@@ -663,6 +759,49 @@ async fn directed(inst: &mut Inst, out: &mut Out, which: u64) {
             s_deledges_ent(inst, &mut scn, 0, vec![(0, 1, e.2, dd)], 2).await;
             do_compute(inst, &mut scn).await; do_check(inst, &mut scn).await;
         }
+        9 => { // a row updated through an unchanged parent: same room / other room, same day / other day
+            l_nested_create(inst, &mut scn, Some(0), None, false).await;     // nodes 0 (owner) 1 (nested), room 0
+            l_create(inst, &mut scn, 1, Some(1), false).await;               // node 2, room 1
+            l_via(inst, &mut scn, 0, 2, false).await;                         // new reference: owner rewritten too
+            do_check(inst, &mut scn).await;
+            tick(&mut scn, d(1, 40));
+            l_via(inst, &mut scn, 0, 1, false).await;                         // reference exists: only the nested row changes (same room, other day)
+            do_check(inst, &mut scn).await;
+            tick(&mut scn, d(2, 40));
+            l_via(inst, &mut scn, 0, 2, true).await;                          // nested row in another room than the owner, no recompute requested
+            tick(&mut scn, d(2, 90));
+            l_via(inst, &mut scn, 0, 1, false).await;
+            do_check(inst, &mut scn).await;
+        }
+        10 => { // a private (room-less) owner with a shared nested row
+            l_nested_create(inst, &mut scn, None, Some(0), false).await;     // nodes 0 (owner, no room) 1 (nested, room 0)
+            do_check(inst, &mut scn).await;
+            tick(&mut scn, d(1, 40));
+            l_update(inst, &mut scn, 1, 1, None, false).await;                // the shared row updated directly
+            do_check(inst, &mut scn).await;
+            tick(&mut scn, d(2, 40));
+            l_via(inst, &mut scn, 0, 1, false).await;                         // ... and through its room-less owner
+            do_check(inst, &mut scn).await;
+            tick(&mut scn, d(3, 40));
+            l_create(inst, &mut scn, 1, None, false).await;                   // node 2, no room
+            l_create(inst, &mut scn, 1, Some(1), false).await;                // node 3, room 1
+            l_via(inst, &mut scn, 2, 3, false).await;                         // new reference from a room-less row
+            tick(&mut scn, d(4, 40));
+            l_via(inst, &mut scn, 2, 3, true).await;
+            do_compute(inst, &mut scn).await; do_check(inst, &mut scn).await;
+        }
+        11 => { // a batch whose COMMIT fails is rolled back; the same writes are sent again: every mark must be there
+            l_create_f(inst, &mut scn, 1, Some(0), true, true).await;
+            s_nodes_f(inst, &mut scn, 0, vec![(None, 2, d(0, 5000)), (None, 1, d(0, 6000))], true).await;
+            do_compute(inst, &mut scn).await; do_check(inst, &mut scn).await;
+            tick(&mut scn, d(1, 40));
+            l_create_f(inst, &mut scn, 1, Some(0), true, true).await;        // same key as before the failure? no: a new day
+            s_nodes_f(inst, &mut scn, 0, vec![(Some(1), 2, d(1, 7000)), (None, 2, d(1, 8000))], true).await;
+            do_compute(inst, &mut scn).await; do_check(inst, &mut scn).await;
+            s_nodes_f(inst, &mut scn, 0, vec![(None, 2, d(1, 9000))], true).await; // a key that was marked and recomputed before
+            l_create_f(inst, &mut scn, 1, Some(0), true, true).await;
+            do_compute(inst, &mut scn).await; do_check(inst, &mut scn).await;
+        }
         _ => {}
     }
     emit(out, &scn, "directed", &format!("d{}", which));
@@ -695,15 +834,24 @@ async fn random_case(inst: &mut Inst, out: &mut Out, rng: &mut Rng, case_no: u64
             match rng.below(4) { 0 => scn.now - rng.range(0, 30).min(scn.now - lo), 1 => BASE + rng.range(0, day) * DAY + rng.range(2000, 9000), 2 => { let k = rng.range(0, day); (BASE + k * DAY).max(lo) } _ => lo + rng.below((scn.now - lo) as u64 + 1) as i64 }
         };
         match rng.below(100) {
-            0..=17 => { let ent = 1 + rng.below(2); let r = if rng.chance(1, 12) { None } else { Some(room) }; l_create(inst, &mut scn, ent, r, rng.chance(1, 3)).await; }
+            0..=13 => { let ent = 1 + rng.below(2); let r = if rng.chance(1, 10) { None } else { Some(room) }; let q = rng.chance(1, 3); let f = q && rng.chance(1, 5); l_create_f(inst, &mut scn, ent, r, q, f).await; }
+            14..=17 => { // nested creation: owner / nested row with or without a room of their own
+                let o = if rng.chance(1, 3) { None } else { Some(room) };
+                let c = match rng.below(3) { 0 => None, 1 => Some(room), _ => Some(rng.below(nrooms as u64) as usize) };
+                l_nested_create(inst, &mut scn, o, c, rng.chance(1, 3)).await;
+            }
             18..=31 if !alive.is_empty() => {
                 let ni = *rng.pick(&alive);
                 let mv = if rng.chance(1, 3) { Some(room) } else { None };
                 let ent = if rng.chance(1, 15) { 3 - scn.nodes[ni].ent } else { scn.nodes[ni].ent };
                 l_update(inst, &mut scn, ni, ent, mv, rng.chance(1, 3)).await;
             }
-            32..=36 if !scn.nodes.is_empty() && rng.chance(1, 3) => { let ni = rng.below(scn.nodes.len() as u64) as usize; let e = scn.nodes[ni].ent; l_update(inst, &mut scn, ni, e, None, false).await; }
-            37..=58 => {
+            32..=36 if persons.len() >= 2 => { // a row updated through another one
+                let (pi, ci) = if !scn.edges.is_empty() && rng.chance(2, 3) { let e = *rng.pick(&scn.edges); (scn.nodes.iter().position(|n| n.idx == e.0).unwrap(), scn.nodes.iter().position(|n| n.idx == e.1).unwrap()) } else { (*rng.pick(&persons), *rng.pick(&persons)) };
+                if pi != ci && scn.nodes[pi].alive && scn.nodes[ci].alive && scn.nodes[pi].ent == 1 && scn.nodes[ci].ent == 1 { l_via(inst, &mut scn, pi, ci, rng.chance(1, 3)).await; }
+            }
+            37..=38 if !scn.nodes.is_empty() && rng.chance(1, 3) => { let ni = rng.below(scn.nodes.len() as u64) as usize; let e = scn.nodes[ni].ent; l_update(inst, &mut scn, ni, e, None, false).await; }
+            39..=58 => {
                 let mut vs = vec![];
                 for _ in 0..(1 + rng.below(3)) {
                     if alive.is_empty() || rng.chance(1, 2) { vs.push((None, 1 + rng.below(2), past(rng, &scn).max(scn.t0 + 5))); }
@@ -720,7 +868,8 @@ async fn random_case(inst: &mut Inst, out: &mut Out, rng: &mut Rng, case_no: u64
                         vs.push((Some(ni), ent, md.max(scn.t0 + 5)));
                     }
                 }
-                s_nodes(inst, &mut scn, room, vs).await;
+                let f = rng.chance(1, 8);
+                s_nodes_f(inst, &mut scn, room, vs, f).await;
             }
             59..=65 if !alive.is_empty() => { let ni = *rng.pick(&alive); l_delnode(inst, &mut scn, ni).await; }
             66..=73 if !scn.nodes.is_empty() => {
@@ -761,7 +910,7 @@ async fn main() {
     let mut rng = Rng::from_env();
     let mut inst = Inst::start(&format!("inst{}", seed())).await;
     let only: Option<u64> = std::env::var("VERIF_ONLY").ok().and_then(|s| s.parse().ok());
-    for w in 0..9 { if only.is_none() || only == Some(w) { directed(&mut inst, &mut out, w).await; } }
+    for w in 0..12 { if only.is_none() || only == Some(w) { directed(&mut inst, &mut out, w).await; } }
     let n = if only.is_some() { 0 } else { scale(130, 1500) };
     for i in 0..n {
         let mut r = rng.fork();
